@@ -13,6 +13,8 @@ import Knee.Model.ClusterFilter
 import Knee.Model.EvenPoints
 import Knee.Model.ZMethod
 import Knee.Model.Elbow
+import Knee.Model.KneedleQ
+import Knee.Model.Isodata
 /-
 Correspondence driver.  `lake env lean --run Driver.lean` (or the compiled `driver` exe).
 Harness → driver : `CALL <fn> <arg> <arg> …`
@@ -384,6 +386,8 @@ def dispatch (out inp : IO.FS.Stream) (fn : String) (args : List String) : M Str
     | "curvature" => pure (toString (curvKneeQ x y n))
     | "menger" => pure (toString (mengerKneeQ x y n))
     | "lmethod" => pure (match lmethodKneeQ x y .adjusted n 10 with | some k => toString k | none => "none")
+    | "kneedle" => pure (match kneedleKneeQ xs ys with | some k => toString k | none => "none")
+    | "dfdt" => pure (toString (dfdtKnee (dfdtDiffsQ ((List.range n).map (cfdQ x y n))) n))
     | _ => throw "kind"
   | "gradQ", [xs, ys] =>
     let xs ← orErr (parseList? parseRat? xs) "xs"
